@@ -40,7 +40,7 @@ var Checks = map[string]CheckSpec{
 	"C12": {Property: "C12", Level: "exploration", Profiles: []string{"clock", "general"}, QuickS: 75, ThoroughS: 600},
 	"C13": {Property: "C13", Level: "exploration", Profiles: []string{"rounds", "rounds", "book"}, QuickS: 75, ThoroughS: 600},
 	"C14": {Property: "C14", Level: "exploration", Profiles: []string{"replicas"}, QuickS: 75, ThoroughS: 900},
-	"C15": {Property: "C15", Level: "exploration", Profiles: []string{"genesis"}, QuickS: 75, ThoroughS: 600},
+	"C15": {Property: "C15", Level: "exploration", Profiles: []string{"genesis", "genesis", "genesis", "town"}, QuickS: 75, ThoroughS: 600},
 	"C16": {Property: "C16", Level: "exploration", Profiles: []string{"book", "rounds", "fixed", "vesting"}, Opts: ExecOpts{Queries: true, QueryEvery: 4}, QuickS: 75, ThoroughS: 600},
 	"C17": {Property: "C17", Level: "fault_enumeration", Custom: "hooks", Profiles: []string{"hooks", "book", "clock", "fixed"}, QuickS: 60, ThoroughS: 600},
 	"C20": {Property: "C20", Level: "exploration", Custom: "cli", QuickS: 75, ThoroughS: 600},
